@@ -94,9 +94,9 @@ def st2_universe(st):
     return _UNI_OF[id(s)]
 
 
-def run_reeval_instance(mod, nodes, edges, mode, deadline=None, max_first=2000):
+def run_reeval_instance(mod, nodes, edges, mode, deadline=None, max_first=2000, built=False):
     """C12: returns (stats, violations)"""
-    uni = H.heval_universe(mod, nodes, edges, mode)
+    uni = H.make_universe(mod, nodes, edges, mode, built=built)
     ex1 = X.Explorer(uni, [], fail_actions=False, abort_actions=False)
     ex1.run(deadline=deadline)
     stats = {'states': ex1.n_states, 'transitions': ex1.n_transitions, 'events': ex1.n_events, 'finals': len(ex1.finals),
@@ -146,10 +146,10 @@ def run_reeval_instance(mod, nodes, edges, mode, deadline=None, max_first=2000):
     return stats, viols
 
 
-def run_resume_instance(mod, nodes, edges, mode, deadline=None, max_first=20000):
+def run_resume_instance(mod, nodes, edges, mode, deadline=None, max_first=20000, built=False):
     """C09(b): interrupted evaluation E1 (any failure subset / abort point), failure-free resume E2, compared with
     every uninterrupted evaluation U from the same start that the same input admits.  returns (stats, violations)"""
-    uni = H.heval_universe(mod, nodes, edges, mode)
+    uni = H.make_universe(mod, nodes, edges, mode, built=built)
     ex1 = X.Explorer(uni, [])
     ex1.run(deadline=deadline)
     z = ex1.z
